@@ -15,8 +15,9 @@ RTAB = CheckFn("ruletable", "Model.RuleTable", "ruletable_check",
                Tup(List(Tup(NN, Nat)), List(NN), List(Tup(NN, Nat)), Bool, Bool))
 CHECKFNS = [PUR, HEAPFN, RTAB]
 ASSUMPTIONS = [
-    "which torch calls alias or write is runtime behaviour: a TorchFunctionMode monitor records every in-place / out= torch call made during a query and the storage it writes; storages reachable from the arguments before the call are the caller's, all others count as allocated inside the call",
-    "deep snapshots (structure text, label tables, domain values, storage bytes, strides, defaults, requires_grad, grad presence) are hashed with sha1 and compared as numbers inside Coq",
+    "which torch calls alias or write is runtime behaviour: a TorchFunctionMode monitor records every in-place / out= torch call made during a query and the storage it writes; storages reachable from the arguments before the call are the caller's, all others count as allocated inside the call; before the trace is handed to the checker the storage addresses are renumbered (injectively, by first appearance) and runs of consecutive writes to one storage are collapsed into one event",
+    "deep snapshots (structure text, label tables, domain values, storage bytes, strides, defaults, requires_grad, grad presence; and one line per value reachable from the grammar object through attributes / dict entries in order / sequences / sets, with container types, sharing, storage addresses and tensor version counters) are hashed with sha1 and compared as numbers inside Coq; the snapshot reads private attributes (vars(g), e.g. _rules) of the objects as they are",
+    "rule-table check: the harness reads HRG._rules (keys in order, number of rules per key) before and after every query and g == copy-taken-before; Model.RuleTable.ruletable_check compares them with what the modelled lookup loop leaves behind (the table unchanged); that the queries read rules only through HRG.rules(x) is read off the code, not checked",
     "results are compared with the same call on a fresh deep copy and with a repeated call, after renaming implicit ids by order of appearance",
     "heap model (Model/Heap.v): the pattern layer (paxes/vaxes, unification; properties C05/C06) is not re-modelled -- every operation that computes a new pattern receives the layout of the result pattern (dense position -> physical position), __getitem__/__iter__ the selected physical positions, and every operation that allocates through to_dense()/binary operations the memory format (stride order) of the new tensor, all computed by the harness from the patterns involved (layouts through the library's own to_dense on an index probe); given these, WHICH storage a result uses, which cells are written and which object a call returns are computed by the model alone and compared with untyped_storage().data_ptr() / object identity / dense values of the real objects after every step",
     "heap model: a torch Tensor object is not a heap object of its own (no modelled operation changes the metadata of an existing Tensor; requires_grad_ is outside the model); values are small integers (exact in float64/float32) and the in-place maps are neg_, abs_, relu_, nan_to_num_, *= 2, *= 3; copy_ between overlapping views of one storage (unspecified in torch) and binary operations across dtypes are outside the modelled domain (verdict 30, never generated)",
@@ -88,6 +89,16 @@ def deep_lines(root):
     walk(root, "g", {}, lines)
     return lines
 
+def deep_digest(lines):
+    """the lines of a deep snapshot folded into one number per top-level attribute of the root (in order of
+    first appearance), so that the values sent to the checker stay small"""
+    groups = {}
+    for l in lines:
+        head = l.split(" ", 1)[0]
+        key = head[2:].split(".")[0].split("{")[0].split("[")[0] if head.startswith("g.") else ""
+        groups.setdefault(key, []).append(l)
+    return [h64(k + "\n" + "\n".join(v)) for k, v in groups.items()]
+
 def rule_table(g, ids):
     """the keys of HRG._rules in order, each with the number of its rules (labels numbered by `ids`)"""
     t = vars(g).get("_rules")
@@ -155,6 +166,20 @@ class Monitor:
         self.mode = Mode()
     def __enter__(self): self.mode.__enter__(); return self
     def __exit__(self, *a): return self.mode.__exit__(*a)
+
+def compact_trace(user, events):
+    """storages renumbered by order of first appearance (user storages first) and runs of consecutive writes
+    to one storage collapsed into one event: trace_ok gives the same verdict (it only compares storage
+    numbers, and no allocation lies inside a run), the values sent to the checker stay small"""
+    num = {}
+    def n(p): return num.setdefault(p, len(num) + 1)
+    u = [n(p) for p in sorted(user)]
+    out = []
+    for t, p, v in events:
+        e = (t, n(p))
+        if t == 1 and out and out[-1][:2] == e: continue
+        out.append((t, n(p), len(out) + 1 if t == 1 else 0))
+    return u, out
 
 def result_digest(name, res):
     import fggs
@@ -369,10 +394,10 @@ def force_passthrough(rng, spec):
     terminal edge attached exactly to the external nodes in order (its value IS the weight tensor of t: any
     identity shortcut in einsum / project / to_dense hands the caller's tensor to the solver), mostly as the
     only rule of X without nonterminal edges, and a recursive rule  X(v) -> X(u) step(u1,v1)..step(uk,vk)
-    (X -> X c for arity 0) so that X lies in a recursive component; both at random positions of the rule list"""
+    (X -> X c for arity 0) so that X lies in a recursive component; the recursive one at a random position of the rule list, the pass-through rule in half of the cases first"""
     el = spec["elabels"]
     nts = [i for i, e in enumerate(el) if not e["term"]]
-    chosen = [x for x in nts if rng.random() < 0.6] or [rng.choice(nts)]
+    chosen = [x for x in nts if rng.random() < 0.75] or [rng.choice(nts)]
     for x in chosen:
         typ = list(el[x]["type"]); k = len(typ)
         t = add_terminal(rng, spec, typ)
@@ -385,7 +410,7 @@ def force_passthrough(rng, spec):
             steps = [add_terminal(rng, spec, [nl, nl]) for nl in typ]
             rec = dict(lhs=x, nodes=typ + typ, edges=[(x, list(range(k, 2 * k)))] + [(steps[j], [k + j, j]) for j in range(k)], ext=list(range(k)))
         new = [base, rec]; rng.shuffle(new)
-        for r in new: spec["rules"].insert(rng.randint(0, len(spec["rules"])), r)
+        for r in new: spec["rules"].insert(0 if (r is base and rng.random() < 0.5) else rng.randint(0, len(spec["rules"])), r)
     spec["features"] = sorted(set(spec["features"]) | {"passthrough_rule"})
     spec["recursive"] = True
 
@@ -416,7 +441,7 @@ def make_queries_sr(rng, spec, sr):
     if sr.name != "bool":
         xi = tuple(0 for _ in spec["elabels"][spec["start"]]["type"])
         vs = fggs.ViterbiSemiring(dtype=sr.torch_dtype())
-        qs.append(("viterbi", lambda g: fggs.viterbi(g, xi, semiring=vs, kmax=60)))
+        qs.append(("viterbi", lambda g: fggs.viterbi(g, xi, semiring=vs, kmax=6)))
     qs.append(("factorize_fgg[min_fill]", lambda g: fggs.factorize_fgg(g, method="min_fill")))
     qs.append(("factorize_hrg", lambda g: fggs.factorize_hrg(g)))
     qs.append(("conjoin_hrgs", lambda g: fggs.conjoin_hrgs(g, g)))
@@ -455,12 +480,12 @@ def history(rng, spec, g, rg, seq, stream, vals, metas, rtvals, rtmetas, hist):
             cp = None; eq0 = True
         tab0 = rule_table(g, ids)
         deep0 = deep_lines(g)
-        before = [h64(p) for p in hrg_snap(g)] + [h64(l) for l in deep0]
+        before = [h64(p) for p in hrg_snap(g)] + deep_digest(deep0)
         user = user_storages(g)
         with Monitor(user) as mon:
             res = call(q, g)
         deep1 = deep_lines(g)
-        after = [h64(p) for p in hrg_snap(g)] + [h64(l) for l in deep1]
+        after = [h64(p) for p in hrg_snap(g)] + deep_digest(deep1)
         tab1 = rule_table(g, ids)
         try:
             eq1 = True if cp is None else (bool(g == cp) and bool(cp == g) and not bool(g != cp))
@@ -468,8 +493,9 @@ def history(rng, spec, g, rg, seq, stream, vals, metas, rtvals, rtmetas, hist):
             eq1 = False
         dig = result_digest(name, res)
         r1 = first.setdefault(name, dig)
-        vals.append((sorted(user), list(mon.events), before, after, ref + r1, dig + dig))
-        meta = dict(kind="query", stream=stream, spec=gen.spec_jsonable(spec), requires_grad=rg, query=name, sequence=[s for s, _ in seq],
+        cu, ctr = compact_trace(user, mon.events)
+        vals.append((cu, ctr, before, after, ref + r1, dig + dig))
+        meta = dict(kind="query", stream=stream, monitor_writes=sum(1 for e in mon.events if e[0] == 1), writes_to_caller_storages=sum(1 for e in mon.events if e[0] == 1 and e[1] in user), spec=gen.spec_jsonable(spec), requires_grad=rg, query=name, sequence=[s for s, _ in seq],
                     result_is_exception=isinstance(res, Exception) and type(res).__name__)
         if deep0 != deep1:
             s0, s1 = set(deep0), set(deep1)
@@ -515,7 +541,7 @@ def run(tier, seed):
         history(rng, spec, g, rg, seq, "random", vals, metas, rtvals, rtmetas, hist)
     # forced-shape stream: every semiring with weights of its own dtype (Bool with bool weights), all methods;
     # grammars with pass-through rules in recursive components and with nonterminals that have no rules
-    m = int(os.environ.get("VERIF_N_SHAPES", 0)) or (20 if tier == "quick" else 1500)
+    m = int(os.environ.get("VERIF_N_SHAPES", 0)) or (40 if tier == "quick" else 1500)
     for i in range(m):
         srname, dt = CONFIGS[i % len(CONFIGS)]
         sr = SR(srname, dt)
@@ -549,7 +575,7 @@ def run(tier, seed):
         if c == 0: continue
         violations.append(Violation(WHAT.get(c, "verdict %d" % c), case=m, oracle="trace_ok / snapshot equality", corr="C18 / corr:purity",
                                     failing_input_found=True, call=m.get("query") or m.get("op")))
-    rcodes, rnk = run_model(RTAB, rtvals, seed=seed, coq_sample=20, tag="c18rt")
+    rcodes, rnk = run_model(RTAB, rtvals, seed=seed, coq_sample=10, tag="c18rt")
     RWHAT = {2: "a read-only query changed the grammar's rule table (HRG._rules): looking up the rules of a nonterminal that has none inserted an entry for it, exactly as the defaultdict lookup of Model/RuleTable.v (query_dd) does; the model's lookup (C18_rules_lookup_pure) leaves the table as it was",
              4: "a read-only query changed the grammar's rule table (HRG._rules: keys in order with the number of rules each); the model's lookup (C18_rules_lookup_pure) leaves the table as it was",
              3: "after the query the grammar is no longer == (HRG.__eq__, both directions, and !=) to the copy taken just before the call, although it was before"}
@@ -559,7 +585,7 @@ def run(tier, seed):
                                     expected=dict(rule_table_after=m_["rule_table_before"], equal_to_copy_after=m_["equal_to_copy_before"]),
                                     oracle="Model.RuleTable.ruletable_check (C18_rules_lookup_pure, C18_ruletable_check_sound)", corr="C18 / corr:rule-table",
                                     failing_input_found=True, call=m_.get("query")))
-    nwrites = sum(sum(1 for e in v[1] if e[0] == 1) for v in vals)
+    nwrites = sum(m_.get("monitor_writes", 0) for m_ in metas) + sum(sum(1 for e in v[1] if e[0] == 1) for v, m_ in zip(vals, metas) if "monitor_writes" not in m_)
     violations.extend(hviol)
     ruleless_calls = sum(1 for v in rtvals if set(v[1]) - {k for k, _ in v[0]})
     passthrough_fp = sum(1 for m_ in metas if m_.get("stream") == "forced-shapes" and "passthrough_rule" in m_["spec"].get("features", []) and "fixed-point" in (m_.get("query") or ""))
@@ -587,7 +613,7 @@ def replay(path):
 
 MANIFEST = dict(
     level="proof",
-    text="Coq heap model of the container layer (Model/Heap.v: storages, PatternedTensor objects = storage + cells + layout + default, MultiTensor = key -> object reference; 25 operations transcribed from indices.py / multi.py with their sharing behaviour): C18_frame (every operation mutates only its target objects and writes only their storages), C18_clone_independent / C18_mclone_independent (after a clone EVERY operation sequence that only mutates objects made by/after the clone leaves every older object's denotation unchanged; by a watermark invariant over the sequence), C18_mclone_deep, C18_clone_equal / C18_mclone_equal (a clone denotes what its source denotes), and the witnesses C18_view_shares, C18_getitem_shares, C18_iter_shares, C18_to_same_dtype_shares, C18_copy_into_view_writes_source, C18_add_single_aliases, C18_shallow_clone_refuted (= seeded/C18-d). Correspondence: random operation sequences run on the real objects and through the extracted model; after every step the storage partition (data_ptr), every dense value/default, every dictionary and the identity of every returned object are compared, violations are shrunk to a minimal sequence; the clone clause itself is judged on the real objects by the model's discipline. Also: ownership model of in-place updates -- a trace of (allocate | write) events accepted by trace_ok leaves every caller-owned storage unchanged and every written storage was allocated inside the call. A TorchFunctionMode monitor records the actual in-place / out= torch calls of every query and the Coq checker judges the trace; deep snapshots of every argument before/after each call and result digests (vs a fresh deep copy and vs earlier identical calls) are compared in Coq, over random interleavings of all listed queries on the same objects.",
+    text="Coq heap model of the container layer (Model/Heap.v: storages, PatternedTensor objects = storage + cells + layout + default, MultiTensor = key -> object reference; 25 operations transcribed from indices.py / multi.py with their sharing behaviour): C18_frame (every operation mutates only its target objects and writes only their storages), C18_clone_independent / C18_mclone_independent (after a clone EVERY operation sequence that only mutates objects made by/after the clone leaves every older object's denotation unchanged; by a watermark invariant over the sequence), C18_mclone_deep, C18_clone_equal / C18_mclone_equal (a clone denotes what its source denotes), and the witnesses C18_view_shares, C18_getitem_shares, C18_iter_shares, C18_to_same_dtype_shares, C18_copy_into_view_writes_source, C18_add_single_aliases, C18_shallow_clone_refuted (= seeded/C18-d). Correspondence: random operation sequences run on the real objects and through the extracted model; after every step the storage partition (data_ptr), every dense value/default, every dictionary and the identity of every returned object are compared, violations are shrunk to a minimal sequence; the clone clause itself is judged on the real objects by the model's discipline. Rule table (Model/RuleTable.v: HRG._rules as an association list, add_rule, rules = lookup with a default, the loop of lookups of a query): C18_rules_lookup_pure (the lookups leave the table, with its key order, unchanged whatever labels are asked for -- also nonterminals without rules), C18_rules_after_add_rule, C18_ruletable_check_sound / _complete, C18_defaultdict_lookup_pure_iff (the defaultdict lookup of seeded/C18-f is read-only exactly when every label asked for has an entry); correspondence: key table of _rules before/after every query and == with a copy taken before, judged by ruletable_check. Also: ownership model of in-place updates -- a trace of (allocate | write) events accepted by trace_ok leaves every caller-owned storage unchanged and every written storage was allocated inside the call. A TorchFunctionMode monitor records the actual in-place / out= torch calls of every query and the Coq checker judges the trace; deep snapshots of every argument before/after each call and result digests (vs a fresh deep copy and vs earlier identical calls) are compared in Coq, over random interleavings of all listed queries on the same objects with in-place weight updates by the caller in between, in every semiring with weights of its own dtype (Bool with bool weights), methods fixed-point and newton, on random grammars and on grammars with forced pass-through rules X(v..) -> t(v..) in recursive components, nonterminals without rules, patterned weights.",
     note="Clone clause: proved for all operation sequences on the heap model of the container layer, whose sharing behaviour is compared with the real objects after every step of random sequences (notes/C18.md lists the 25 modelled operations and what is outside: reshape/view, __add__/__sub__, requires_grad_, the einsum/solve layer). Query part: partial -- which torch calls alias or write inside sum_product/viterbi/... is runtime behaviour; the model covers the ownership discipline, the monitor what torch did on the explored histories. Trusted: the pattern-layer parameters (layouts, selected positions, memory format) the harness hands to the heap model, the monitor's classification of in-place calls (name ends with '_' or out=), sha1 digests, harness. Side finding (not a C18 violation): MultiTensor.copy_ raises RuntimeError('dictionary changed size during iteration') whenever the destination has a key the source lacks (after deleting the first such key); modelled as it is.",
     technique="Coq heap model (separation/watermark invariant by induction over operation sequences) + model-vs-implementation sharing/value comparison with shrinking; Coq ownership-model theorem + runtime write monitor and snapshot oracle judged by the extracted checker",
     design_ref="DESIGN.md section 6, C18")
